@@ -236,3 +236,40 @@ pub fn snap_cw3(inner: &dyn Contract<Empty>, deps: Deps, env: &Env) -> Snap {
     }
     Snap::Cw3(Box::new(s))
 }
+
+pub fn norm_coins(v: &[Coin]) -> Vec<Coin> {
+    let mut m: std::collections::BTreeMap<String, u128> = std::collections::BTreeMap::new();
+    for c in v {
+        *m.entry(c.denom.clone()).or_insert(0) += c.amount.u128();
+    }
+    m.into_iter()
+        .filter(|(_, a)| *a != 0)
+        .map(|(d, a)| Coin::new(a, d))
+        .collect()
+}
+
+pub fn snap_cw1(inner: &dyn Contract<Empty>, deps: Deps, env: &Env, universe: &[String], subkeys: bool) -> Snap {
+    let mut s = Cw1Snap::default();
+    match inner_query::<cw1_whitelist::msg::AdminListResponse>(inner, deps, env, &json!({"admin_list":{}})) {
+        Some(a) => {
+            s.admins = a.admins;
+            s.mutable = a.mutable;
+            s.ok = true;
+        }
+        None => return Snap::Cw1(Box::new(s)),
+    }
+    if subkeys {
+        for a in universe {
+            let al = inner_query::<cw1_subkeys::state::Allowance>(inner, deps, env, &json!({"allowance":{"spender":a}}));
+            let pe = inner_query::<cw1_subkeys::state::Permissions>(inner, deps, env, &json!({"permissions":{"spender":a}}));
+            if al.is_none() || pe.is_none() {
+                s.ok = false;
+            }
+            let al = al.unwrap_or_default();
+            s.allow.push((norm_coins(&al.balance.0), al.expires));
+            let pe = pe.unwrap_or_default();
+            s.perms.push((pe.delegate, pe.redelegate, pe.undelegate, pe.withdraw));
+        }
+    }
+    Snap::Cw1(Box::new(s))
+}
